@@ -808,7 +808,7 @@ fn lirloop_line(rest: &str) -> String {
 /// the string literal of `(data $d2 "…")` in the emitted WAT, i.e. the output of `print_byte_vec`.
 fn dataseg_line(hexsrc: &str) -> String {
   let text = unhex_str(hexsrc);
-  match samverif_harness::exec::compile_program(&[("Main".to_string(), text)], "Main", false) {
+  match samverif_harness::exec::compile_program(&[("Main".to_string(), text)], "Main", true) {
     samverif_harness::exec::CompileOutcome::Ok(c) => {
       for l in c.wat.lines() {
         if let Some(rest) = l.trim_start().strip_prefix("(data $d2 \"") {
